@@ -146,6 +146,24 @@ def fail_scenario(rng, n, byz=0.0, restart=False):
     return {"n": n, "nodes": 1, "self": [rng.randrange(-1, n)], "fail": True, "ops": ops}
 
 
+def crash_scenario(rng, n, byz=0.0):
+    """Fork histories in which every delivery that triggers a reorganisation crashes inside
+    reorg.swapChain at stop point 2 (marker written) or 3 (chain mapping and status swapped, marker
+    not deleted) and is recovered at the next start (["K", node, id, point])."""
+    sc = forks(rng, n, rng.randrange(2, 6), byz=byz, restart="none")
+    ops = []
+    for op in sc["ops"]:
+        if op[0] == "D":
+            ops.append(["K", op[1], op[2], rng.choice([2, 3, 3])])
+            if rng.random() < 0.1:
+                ops.append(["S", 0])
+        else:
+            ops.append(op)
+    sc["ops"] = ops
+    sc["crash"] = True
+    return sc
+
+
 def gc_scenario(rng, n, length):
     """Linear chain with libStatus.gc(bps) called directly with producer subsets."""
     t = Tree()
@@ -607,6 +625,8 @@ def generate(rng, quick):
         sc.append(forks(rng, n, rng.randrange(2, 6), byz=0.3, restart=rng.choice(["none", "mixed", "shadow"])))
     for _ in range(6 * k):
         sc.append(fail_scenario(rng, rng.choice([1, 2, 3, 4, 4, 5]), byz=rng.choice([0.0, 0.0, 0.3]), restart=rng.random() < 0.5))
+    for _ in range(5 * k):
+        sc.append(crash_scenario(rng, rng.choice([1, 2, 3, 4, 4, 5]), byz=rng.choice([0.0, 0.0, 0.3])))
     for _ in range(3 * k):
         sc.append(gc_scenario(rng, rng.choice([3, 4, 5, 7]), rng.randrange(10, 30)))
     for _ in range(4 * k):
